@@ -134,6 +134,8 @@ where
     }
 
     fn process_index(&mut self, index: GraphIndex) -> Result<(), DbError> {
+        self.graph.validate_bounds(index)?;
+
         if !self.visited.value(index.as_u64()) {
             if index.0 == self.destination.0 {
                 std::mem::swap(&mut self.result, &mut self.current_path.elements);
